@@ -41,6 +41,7 @@ type step struct {
 	Err    string `json:"err"`
 	H      string `json:"h"`
 	Buffer bool   `json:"buffer"`
+	Kind   string `json:"kind"`
 }
 
 // Msg is the user message; identity = ID (clones share the pointer).
@@ -72,12 +73,13 @@ type opResult struct {
 }
 
 type puppet struct {
-	parked atomic.Pointer[entry]
-	cmds   chan cmd
-	res    chan opResult
-	sentBy map[int]*Msg
-	mu     sync.Mutex
-	done   []int // request numbers in completion-callback order (negative: completed with an error)
+	parked  atomic.Pointer[entry]
+	cmds    chan cmd
+	res     chan opResult
+	sentBy  map[int]*Msg
+	mu      sync.Mutex
+	foreign atomic.Int64 // handler invocations with a nil / unknown payload (never expected)
+	done    []int        // request numbers in completion-callback order (negative: completed with an error)
 }
 
 func newPuppet() *puppet {
@@ -120,7 +122,10 @@ func classify(err error) string {
 func (p *puppet) handle(h string, ctx *actor.ReceiveContext) {
 	m, ok := ctx.Message().(*Msg)
 	if !ok {
-		return // PostStart and other runtime messages
+		if _, start := ctx.Message().(*actor.PostStart); !start {
+			p.foreign.Add(1) // a payload nobody sent: nil (recycled context) or foreign traffic
+		}
+		return
 	}
 	p.mu.Lock()
 	orig := p.sentBy[m.ID]
@@ -317,14 +322,20 @@ func (r *run) state(ev map[string]any) map[string]any {
 		ev["len"] = r.pid.VerifBehaviorLen()
 		return ev
 	}
-	msgs, _ := r.pid.VerifMailboxMessages()
+	msgs, intrusive := r.pid.VerifMailboxMessages()
 	mb = append(mb, msgIDs(msgs)...)
 	st, hasBuf := r.pid.VerifStashMessages()
 	if len(msgs) >= 4096 || len(st) >= 4096 {
 		r.corrupt = true // cyclic list
 		mb, st = mb[:1], st[:0]
 	}
-	ev["mbox"] = mb
+	ev["foreign"] = r.p.foreign.Load()
+	if !intrusive {
+		// only the length of a non-intrusive mailbox can be projected
+		ev["mlen"] = int64(len(mb)) + r.pid.VerifMailboxLen()
+	} else {
+		ev["mbox"] = mb
+	}
 	ev["stash"] = msgIDs(st)
 	ev["hasbuf"] = hasBuf
 	ev["ssize"] = int(r.pid.StashSize())
@@ -487,8 +498,12 @@ func (r *run) behaviour(n int, steps []step) {
 	r.cur, r.curStashed, r.sent, r.corrupt = nil, false, 0, false
 	r.asks = map[int]chan askResult{}
 	r.buffer = false
+	kind := "unbounded"
 	if len(steps) > 0 && steps[0].Op == "Init" {
 		r.buffer = steps[0].Buffer
+		if steps[0].Kind != "" {
+			kind = steps[0].Kind
+		}
 		steps = steps[1:]
 	}
 	sup := supervisor.NewSupervisor(supervisor.WithAnyErrorDirective(supervisor.ResumeDirective))
@@ -499,6 +514,19 @@ func (r *run) behaviour(n int, steps []step) {
 	opts := []actor.SpawnOption{actor.WithSupervisor(sup), actor.WithLongLived()}
 	if r.buffer {
 		opts = append(opts, actor.WithStashing())
+	}
+	switch kind {
+	case "unbounded": // default intrusive UnboundedMailbox
+	case "bounded":
+		opts = append(opts, actor.WithMailbox(actor.NewBoundedMailbox(64)))
+	case "ring":
+		opts = append(opts, actor.WithMailbox(actor.NewNonBlockingBoundedMailbox(64)))
+	case "prio": // constant priority: the stable heap is FIFO
+		opts = append(opts, actor.WithMailbox(actor.NewUnboundedStablePriorityMailbox(func(any, any) bool { return false })))
+	case "segmented":
+		opts = append(opts, actor.WithMailbox(actor.NewUnboundedSegmentedMailbox()))
+	default:
+		fatal("unknown mailbox kind", kind)
 	}
 	if r.mode == "restash" {
 		opts = append(opts, actor.WithReentrancy(reentrancy.New(reentrancy.WithMode(reentrancy.StashNonReentrant))))
@@ -518,7 +546,7 @@ func (r *run) behaviour(n int, steps []step) {
 		fatal("behavior functions are not distinguishable by code pointer")
 	}
 	r.settle() // PostStart handled
-	r.w.Raw(r.state(map[string]any{"op": "New", "buffer": r.buffer}))
+	r.w.Raw(r.state(map[string]any{"op": "New", "buffer": r.buffer, "kind": kind}))
 
 	if r.mode == "restash" {
 		r.restash(n, steps)
@@ -807,8 +835,8 @@ func (r *run) restash(n int, steps []step) {
 
 type sink struct{}
 
-func (sink) PreStart(*actor.Context) error  { return nil }
-func (sink) PostStop(*actor.Context) error  { return nil }
+func (sink) PreStart(*actor.Context) error { return nil }
+func (sink) PostStop(*actor.Context) error { return nil }
 func (sink) Receive(*actor.ReceiveContext) {}
 
 func main() {
